@@ -111,7 +111,12 @@ def case(g, tier, ci):
             else:
                 args = [enc(g.fnum()) for _ in PARAMS[f]]
                 dur = enc(r.choice([1, 0.5, 2, 0.25, 3]))
-            ops.append({"op": "bp.insert", "id": b, "pos": pos, "fn": fnspec(f), "args": args, "dur": dur, "name": enc(name)})
+            op = {"op": "bp.insert", "id": b, "pos": pos, "fn": fnspec(f), "args": args, "dur": dur, "name": enc(name)}
+            if len(args) == 1 and f != "waituntil" and r.random() < 0.5:
+                # the single argument of a one-argument function given bare, not as a tuple (0 and 0.0 included)
+                op["args"] = [enc(r.choice([0, 0.0, 0.5, 3, -1.25]))]
+                op["_bare"] = True
+            ops.append(op)
             ok = pos >= -1 and not (name and name[-1].isdigit() and f != "waituntil")
             if ok:
                 nm = f if f == "waituntil" else (name if name else f)
